@@ -459,6 +459,10 @@ def job_bending(cls, role):
                 O.prove("bending:=Ft/(p_n*b_eff*Y_alpha)",
                         (L.eq(sf * (pnf * bwf * Yf), ff) and bwf <= limf + bandf) or (L.eq(sf * (pnf * limf * Yf), ff) and limf <= bwf + bandf),
                         props=("C09",))
+                bigf = float(8 * AU.TOL * max(spec.SI_TABLE["Length"].values()))
+                O.prove("bending[WormWheel]:SI-determined-away-from-the-tie-b=0.67d",
+                        (not (bwf + bigf <= limf) or L.eq(sf * (pnf * bwf * Yf), ff)) and (not (limf + bigf <= bwf) or L.eq(sf * (pnf * limf * Yf), ff)),
+                        props=("C09", "C07"))
                 return
             dw = sym.term_of(H.SI(mate.reference_diameter))
             pn = sym.PI.numerator / z3.RealVal(sym.PI.denominator) * dw * sym.UF["sin"](sym.term_of(H.SI(mate.helix_angle))) / sym.term_of(q["n"])
@@ -473,6 +477,12 @@ def job_bending(cls, role):
             O.prove("bending:=Ft/(p_n*b_eff*Y_alpha)",
                     z3.Or(z3.And(s_ * (pn * bw * Y) == f_, bw <= lim + band), z3.And(s_ * (pn * lim * Y) == f_, lim <= bw + band)),
                     props=("C09",))
+            # C07 (SI-determinacy): away from the tie b = 0.67 d -- by more than the largest value the tolerance band can take in
+            # any units -- the stress is a function of the SI magnitudes alone (statement free of unit symbols)
+            big = sym.frac_term(8 * AU.TOL * max(spec.SI_TABLE["Length"].values()))
+            O.prove("bending[WormWheel]:SI-determined-away-from-the-tie-b=0.67d",
+                    z3.And(z3.Implies(bw + big <= lim, s_ * (pn * bw * Y) == f_), z3.Implies(lim + big <= bw, s_ * (pn * lim * Y) == f_)),
+                    props=("C09", "C07"), outputs=[H.SI(S)])
             return
         O.prove("bending:=Ft/(m*b*Y)", L.eq(L.mul(H.SI(S), den), H.SI(Ft)), props=("C09", "C07"))
     return Job(f"gears.bending[{cls},{role}]", body, ("C09", "C17", "C07"),
